@@ -81,6 +81,8 @@ Proof.
       * intros [H | [v [[<-|H1] H2]]]; auto. destruct H2 as [<-|[]]. auto. right. exists v. auto.
 Qed.
 
+Definition no_values (o : op) : Prop := match o with ODelete _ | OClear => True | _ => False end.
+
 Section BtStep.
 Variable os : list Z.
 
@@ -89,7 +91,9 @@ Theorem bt_step u o s : wf_bt os s -> op_ok_bt os s o ->
   wf_bt os s' /\
   (forall i ow, nth_error os i = Some ow ->
      seteq (links KBelongs s' ow) (spec_owner KBelongs o (links KBelongs s ow) (values_of os o i))) /\
-  (u = false -> (forall x, In x (tgt s) -> In x (tgt s')) /\ (tgt_ok os s -> tgt_ok os s')).
+  (u = false -> (forall x, In x (tgt s) -> In x (tgt s')) /\ (tgt_ok os s -> tgt_ok os s')) /\
+  (* Delete and Clear keep every remaining link pointing at a record even when Unscoped *)
+  (no_values o -> tgt_ok os s -> tgt_ok os s').
 Proof.
   intros W OK s'. destruct W as [ND NO EX LE ME].
   assert (MEMOS : forall ow, In ow os -> memz ow os = true) by (intros; apply memz_In; assumption).
@@ -130,12 +134,12 @@ Proof.
         apply (K i ow v Ho Hv t) in L. rewrite (T2 U). apply X2. right. exists v. split; [eapply nth_error_In; eauto | exact L]. }
   destruct o as [vs|vs|ts|]; cbn [assoc_step do_append] in s'.
   - destruct OK as [Lv F1]. destruct (REPL vs Lv F1) as [W' [K' S']]. fold s' in W', K', S'.
-    split; [exact W'|]. split; [|exact S'].
+    split; [exact W'|]. split; [|split; [exact S' | intros []]].
     intros i ow Ho t. rewrite links_bt by apply (wb_nd _ _ W').
     destruct (nth_error_ex vs i) as [v Hv]; [rewrite Lv; apply nth_error_Some; congruence|].
     rewrite (K' i ow v Ho Hv t). unfold values_of. cbn [op_values spec_owner single_valued]. rewrite (nth_error_nth vs i [] Hv). reflexivity.
   - destruct OK as [Lv F1]. destruct (REPL vs Lv F1) as [W' [K' S']]. fold s' in W', K', S'.
-    split; [exact W'|]. split; [|exact S'].
+    split; [exact W'|]. split; [|split; [exact S' | intros []]].
     intros i ow Ho t. rewrite links_bt by apply (wb_nd _ _ W').
     destruct (nth_error_ex vs i) as [v Hv]; [rewrite Lv; apply nth_error_Some; congruence|].
     rewrite (K' i ow v Ho Hv t). unfold values_of. cbn [op_values spec_owner]. rewrite (nth_error_nth vs i [] Hv). reflexivity.
@@ -153,7 +157,12 @@ Proof.
         + intro H. inversion H; subst. split; [reflexivity | apply memz_false, Em].
         + intros [H _]. exact H.
       - split; [discriminate | intros [H _]; discriminate]. }
-    split; [|split].
+    split; [|split; [|split]].
+    4:{ intros _ TK ow t Hin L. apply In_nth_error in Hin. destruct Hin as [i Ho]. apply (K i ow Ho t) in L. destruct L as [L NT].
+        assert (T0 : In t (tgt s)) by (eapply TK; [eapply nth_error_In; eauto | exact L]).
+        assert (T : tgt s' = if u then delete_where (fun x => memz x (List.concat (mem s)) && memz x ts) (tgt s) else tgt s) by reflexivity.
+        rewrite T. destruct u; [|exact T0]. apply delete_where_In. split; [exact T0|].
+        apply memz_false in NT. rewrite NT. apply andb_false_r. }
     + constructor; auto.
       * rewrite R, fst_null. exact ND.
       * intros ow Hin. rewrite R, look_null. specialize (EX ow Hin). destruct (look (rows s) ow); [destruct (P (ow, o)); discriminate | congruence].
@@ -173,7 +182,8 @@ Proof.
     assert (K : forall i ow, nth_error os i = Some ow -> forall t, ~ LB s' ow t).
     { intros i ow Ho t. unfold LB. rewrite R, look_null. destruct (look (rows s) ow); [|discriminate].
       unfold P. cbn [fst]. rewrite (MEMOS ow) by (eapply nth_error_In; eauto). discriminate. }
-    split; [|split].
+    split; [|split; [|split]].
+    4:{ intros _ TK ow t Hin L. apply In_nth_error in Hin. destruct Hin as [i Ho]. exfalso. exact (K i ow Ho t L). }
     + constructor; auto.
       * rewrite R, fst_null. exact ND.
       * intros ow Hin. rewrite R, look_null. specialize (EX ow Hin). destruct (look (rows s) ow); [destruct (P (ow, o)); discriminate | congruence].
@@ -210,8 +220,21 @@ Theorem bt_scoped_targets : forall ops s,
 Proof.
   induction ops as [|[u o] ops IH]; intros s W OK SC TK; cbn [final fold_left]; [split; auto|].
   destruct OK as [OK1 OK2]. cbn [snd] in OK1. inversion SC as [|? ? U SC']; subst. cbn in U. subst u.
-  destruct (bt_step false o s W OK1) as [W' [_ S']]. destruct (S' eq_refl) as [S1 S2].
+  destruct (bt_step false o s W OK1) as [W' [_ [S' _]]]. destruct (S' eq_refl) as [S1 S2].
   destruct (IH _ W' OK2 SC' (S2 TK)) as [A B]. split; [intros x Hx; apply A, S1, Hx | exact B].
+Qed.
+
+(* histories whose Unscoped operations are Delete / Clear only: every foreign key of the handle
+   keeps pointing at a record (so Count and Find stay exact, bt_find) *)
+Theorem bt_links_point_at_records : forall ops s,
+  wf_bt os s -> hist_ok_g KBelongs os (op_ok_bt os) s ops ->
+  Forall (fun uo => fst uo = false \/ no_values (snd uo)) ops ->
+  tgt_ok os s -> tgt_ok os (final KBelongs os s ops).
+Proof.
+  induction ops as [|[u o] ops IH]; intros s W OK SC TK; cbn [final fold_left]; [exact TK|].
+  destruct OK as [OK1 OK2]. cbn [snd] in OK1. inversion SC as [|? ? U SC']; subst. cbn in U.
+  destruct (bt_step u o s W OK1) as [W' [_ [S1 S2]]].
+  apply IH; auto. destruct U as [U|U]; [subst u; exact (proj2 (S1 eq_refl) TK) | exact (S2 U TK)].
 Qed.
 
 (* Count and Find report exactly the distinct linked records *)
